@@ -18,6 +18,7 @@ fn ctx(args: &[String]) -> Ctx {
         shim: arg(args, "--shim").unwrap_or("/verif/.build/libverif_env.so").to_string(),
         tmp_root: arg(args, "--tmp-root").unwrap_or("/verif/.build/sessim-tmp").to_string(),
         counter: std::sync::atomic::AtomicU64::new(0),
+        ref_exe: arg(args, "--ref-exe").map(|s| s.to_string()),
     }
 }
 
@@ -147,7 +148,10 @@ fn cmd_replay(args: &[String]) -> i32 {
             return 2;
         }
     };
-    let ctx = ctx(args);
+    let mut ctx = ctx(args);
+    if ctx.ref_exe.is_none() {
+        ctx.ref_exe = rp.ref_exe.clone().filter(|p| std::path::Path::new(p).exists());
+    }
     match drive::replay(&ctx, &rp) {
         Ok((diverges, report)) => {
             println!("{}", serde_json::to_string_pretty(&report).unwrap());
